@@ -41,7 +41,7 @@ def jobs(tier, seed):
         for mask in range(2048):
             c = dict(cfg)
             c['autos'] = mask
-            oo = {'players': True, 'show': SHOW}
+            oo = {'players': True, 'show': SHOW, 'probe': True}
             oo.update(o)
             out.append({'family': fam, 'cfg': c, 'opts': oo, 'state_cap': 300000, 'time_cap': 300})
     # larger configurations under a few automation tuples (incl. the ones the suite uses)
@@ -61,7 +61,7 @@ def jobs(tier, seed):
         for au in few:
             c = dict(cfg)
             c['autos'] = au
-            oo = {'show': SHOW, 'players': au == 'NONE' and th}
+            oo = {'show': SHOW, 'players': au == 'NONE' and th, 'probe': True}
             oo.update(o)
             out.append({'family': fam, 'cfg': c, 'opts': oo, 'dev_bound': 3 if not th else 5,
                         'state_cap': 400000 if th else 60000, 'time_cap': 600 if th else 60})
